@@ -30,6 +30,16 @@ CFG = {
         "Leptos.Transfer.C12_each_once_at_end",
         "Leptos.Transfer.C12_emitted_as_written",
         "Leptos.Transfer.poll_emits_text",
+        # the chunk evaluated as JavaScript: every value under its id, every error, pending and incomplete ids
+        "Leptos.Transfer.C12_chunk_transfer",
+        "Leptos.Transfer.C12_chunk_transfer_data",
+        "Leptos.Transfer.C12_initial_chunk_transfer",
+        "Leptos.Transfer.C12_incomplete_chunk_transfer",
+        "Leptos.Transfer.C12_read_back_single",
+        "Leptos.Transfer.parseNat_decDigits",
+        # JSON codec: full round trip for string values
+        "Leptos.Transfer.C12_json_string_roundtrip",
+        "Leptos.Transfer.C12_json_survives_replace",
         # tie to the source (regenerated table)
         "Leptos.Transfer.C12_sites_match_source",
         "Leptos.Transfer.C12_dataStmt_is_format",
@@ -45,7 +55,8 @@ CFG = {
             "unpadded base64 of random bytes, encoded by the real codee + leptos_server traits), errors before and during the stream, "
             "seal_errors, incomplete chunks, is_hydrating toggles and islands mode, every completion order when <= 4 values are "
             "registered (one case per permutation, 1 in 4 sessions) else a random order, bursts of completions between polls; "
-            "(b) single-literal sessions `lit d|e`; (c) id programs over {next_id, set_is_hydrating(true/false)}: exhaustive up to "
+            "(b) single-literal sessions `lit d|e` and `jsonenc` (real JsonSerdeCodec::encode -> data site -> browser twin -> real decode; "
+            "never in a known class); (c) id programs over {next_id, set_is_hydrating(true/false)}: exhaustive up to "
             "length 5 for both constructors plus random longer ones; (d) browser-twin-only ops (`js`, `tok`) comparing the two "
             "independent decoders/tokenizers. Strings: atoms < > / ! - \" ' \\ NUL digits U+2028 U+2029 U+FEFF </script <!-- <script "
             "--> \\u003c ... mixed with arbitrary code points of the documented alphabet. 11 in 20 cases are sanitised to lie outside "
@@ -80,7 +91,8 @@ CFG = {
         "category": "proof",
         "text": "Lean 4 theorems over all strings and all instantiations of rustc's Unicode tables: Rust {:?} followed by ECMAScript string-literal "
                 "decoding is the identity for every payload without NUL+octal digit and without '<' (partial; the full round trip is refuted by "
-                "kernel-checked witnesses = known findings F-C12-1 nul-octal, F-C12-3 lt-rewritten); data chunks contain no '<' at all and are inert for the "
+                "kernel-checked witnesses = known findings F-C12-1 nul-octal, F-C12-3 lt-rewritten), lifted to whole chunks (a small JS evaluator assigns every value "
+                "under its id; first and last chunk included); JSON-encoded string values round-trip in full (no hypothesis); data chunks contain no '<' at all and are inert for the "
                 "WHATWG tokenizer, error messages are not (refuted: F-C12-2 error-markup; partial for '<'-free messages); server and client id counters align "
                 "for every creation program; every written value is emitted exactly once for every completion order; the model's statement printers are tied "
                 "to ssr.rs by a regenerated table; all tied to the code by a differential run of the real SsrSharedContext/HydrateSharedContext against the compiled model",
